@@ -225,7 +225,7 @@ def gen_model(rnd, opts=None):
     """
     opts = opts or {}
     types = opts.get("types", MODEL_TYPES)
-    D = rnd.randint(1, opts.get("max_doms", 4))
+    D = rnd.randint(min(opts.get("min_doms", 1), opts.get("max_doms", 4)), opts.get("max_doms", 4))
     wchoices = opts.get("widths", [0, 1, 1, 2, 2, 3, 4])
     doms = []
     for _ in range(D):
@@ -234,6 +234,8 @@ def gen_model(rnd, opts=None):
         else:
             a = rnd.randint(-4, 4)
         doms.append([a, a + rnd.choice(wchoices)])
+    for k in range(min(D, opts.get("bool_doms", 0))):
+        doms[k] = [0, 1]
     if opts.get("big") and rnd.random() < 0.1:
         s = rnd.choice([10 ** 6, -(10 ** 6)])
         doms = [[a + s, b + s] for a, b in doms]
@@ -274,8 +276,11 @@ def gen_model(rnd, opts=None):
     plant = [plant_shared[idx[v]] + off[v] for v in range(V)]
     planted = rnd.random() < opts.get("plant", 0.75)
 
-    def one_constraint():
-        name = rnd.choice(types)
+    forced = list(opts.get("force_types") or [])
+    shared_var = rnd.randrange(V) if opts.get("share") else None
+
+    def one_constraint(name=None):
+        name = name or rnd.choice(types)
         lo, hi = arity_range(name, opts.get("max_arity", 4))
         k = rnd.randint(lo, hi)
         if name == "lexicographic_leq" and k % 2:
@@ -288,6 +293,8 @@ def gen_model(rnd, opts=None):
         vs = pick(k, pool)
         if len(vs) < MIN_ARITY.get(name, 1):
             return None
+        if shared_var is not None and shared_var not in vs and (pool is None or shared_var in pool):
+            vs[rnd.randrange(len(vs))] = shared_var
         if name == "lexicographic_leq" and len(vs) % 2:
             vs = vs[:-1]
         if name == "element_iv" and len(vs) != 2:
@@ -298,10 +305,11 @@ def gen_model(rnd, opts=None):
         params = gen_params(rnd, name, box, popts)
         return [vs, name, params]
 
-    for _ in range(rnd.randint(1, opts.get("max_props", 4))):
+    nprops = len(forced) if forced else rnd.randint(1, opts.get("max_props", 4))
+    for pi in range(nprops):
         c = None
         for attempt in range(8 if planted else 1):
-            c2 = one_constraint()
+            c2 = one_constraint(forced[pi] if forced else None)
             if c2 is None:
                 continue
             c = c2
@@ -337,7 +345,8 @@ def gen_model(rnd, opts=None):
         tags.add("circuit_group")
     if not props:
         props.append([[0], "dummy", []])
-    rnd.shuffle(props)
+    if not forced:
+        rnd.shuffle(props)
     model = {"doms": doms, "idx": idx, "off": off, "props": props}
     if any(a == b for a, b in doms):
         tags.add("singleton_domain")
@@ -387,3 +396,22 @@ def gen_config(rnd, model=None, cost=False):
 
 def all_configs():
     return [{"calg": c, "vh": v, "dh": d} for c in CALGS for v in VHS for d in DHS]
+
+
+PAIR_TYPES = [t for t in MODEL_TYPES if t != "dummy"]
+
+
+def gen_pair_model(rnd, k):
+    """k-th ordered pair of constraint types, forced to share a variable, on domains wide enough for both bounds of a
+    variable to move in one call (interaction coverage: mover x watcher)."""
+    n = len(PAIR_TYPES)
+    ta, tb = PAIR_TYPES[(k // n) % n], PAIR_TYPES[k % n]
+    for _ in range(20):
+        nb = sum(1 for t in (ta, tb) if t in ("and", "exactly_true"))
+        model, tags = gen_model(rnd, {"force_types": [ta, tb], "share": True, "widths": [1, 2, 3, 3, 4, 4],
+                                      "max_doms": 5 if nb else 4, "max_alias": 2, "circuit": 0.0,
+                                      "gcc_zero_cap": False, "affine_all_zero": False, "repeat": False,
+                                      "bool_doms": 3 if nb else 0, "min_doms": 4 if nb else 3})
+        if len(model["props"]) == 2:
+            break
+    return model, tags + ["pair:%s+%s" % (ta, tb)]
